@@ -199,6 +199,7 @@ UNWIND = {"simple": 8, "movimm": 66, "mem": 66, "label": 12}
 def emit_harnesses(methods):
     o = [HEADER, "use crate::calls::*;\n"]
     names = []
+    any_reps = set()
     for m in methods:
         if m.kind in ("simple", "movimm", "mem"):
             uw = int(m.fam.get("unwind", UNWIND[m.kind]))
@@ -232,7 +233,15 @@ def emit_harnesses(methods):
     assert!(ok, "POST decode(word) == requested instruction");
 }
 """) % (uw, m.name, decl_symbolic(m), pre, m.name, m.args(), m.name, m.args(), m.name, m.args()))
-            names.append(("any__" + m.name, m.name, "any", "thorough"))
+            # refusal clause ("accepted operands are encodable"): every method in the thorough tier; in the quick tier
+            # one representative per family and per distinct setting of the spec's template variables other than the
+            # method name / opcode (methods of a family share their cls:: encoder, where operand ranges are checked)
+            rep_key = (m.fam.get("name"), tuple(sorted((k, str(v)) for k, v in m.env.items() if k not in ("m", "OP"))))
+            any_tier = "thorough"
+            if rep_key not in any_reps:
+                any_reps.add(rep_key)
+                any_tier = "quick"
+            names.append(("any__" + m.name, m.name, "any", any_tier))
         else:
             txt, ns = emit_label_harnesses(m)
             o.append(txt)
